@@ -32,7 +32,7 @@ RULE = ("alphabet of 23 actions: {viewer, sim} x {reliable, unreliable} x {no ac
         "appended ack for the oldest seen}, standalone PacketAck {all, oldest, oldest+appended rest} per side, proxy "
         "injections {out, in} x {reliable, unreliable}, drop-next toggle, clock +1 s, clock +3 s (resend interval) each "
         "followed by resend_unacked(). Exhaustive DFS with (implementation, model) state hashing to depth 4 (quick) / 5 "
-        "(thorough) + random walks of 200 events (half of them timer-heavy: several injected reliable packets outstanding, 1 s clock steps). distinct_nontrivial = distinct hashed states with at least one injection "
+        "(thorough) + random walks of 200 events (half of them timer-heavy: several injected reliable packets outstanding, 1 s clock steps) at circuit level, + random walks of 120 events with the same actions and model through the real proxy protocol (real datagrams via datagram_received and the SOCKS transport, drops performed by an addon). distinct_nontrivial = distinct hashed states with at least one injection "
         "or drop")
 ASSUMPTIONS = [
     "endpoints only acknowledge reliable packets they have actually been shown, each at most once",
@@ -44,7 +44,7 @@ ASSUMPTIONS = [
 MUST_REACH = {"events": 5000, "acks_translated_after_injection": 50, "acks_for_injected_swallowed": 50,
               "drops_with_piggybacked_acks": 20, "proxy_acks_for_dropped_reliable": 20, "resends_observed": 50,
               "budgets_exhausted": 5, "completions_by_ack": 50, "packetack_with_appended_acks": 20, "states": 300,
-              "older_ack_after_second_injection": 10}
+              "older_ack_after_second_injection": 10, "protocol_level_events": 2000}
 
 _ser = UDPMessageSerializer()
 _es = Settings()
@@ -132,14 +132,19 @@ class Run:
         self.transport = RecTransport()
         self.circuit = ProxiedCircuit(("10.0.0.1", 1), ("10.1.0.1", 2), self.transport)
         self.circuit.resend_every = RESEND_EVERY
+        self.far_addr, self.near_addr = self.circuit.host, self.circuit.near_host
         self.model = Model(tries)
         self.path = []
         self.ok = True
 
+    def close(self):
+        pass
+
     # ---- helpers
     def viol(self, mech, what, **extra):
         self.ok = False
-        self.ctx.violation(mech, what, dict(extra, path=list(self.path), tries=self.model.tries))
+        self.ctx.violation(mech, what, dict(extra, path=list(self.path), tries=self.model.tries,
+                                            backend=getattr(self, "backend", "circuit")))
 
     def take_emissions(self):
         out = self.transport.packets
@@ -162,7 +167,7 @@ class Run:
         m = self.model
         target = "S" if em["direction"] == OUT else "V"
         side = m.sides[target]
-        expected_dst = self.circuit.host if em["direction"] == OUT else self.circuit.near_host
+        expected_dst = self.far_addr if em["direction"] == OUT else self.near_addr
         if em["dst"] != expected_dst:
             self.viol("wrong-destination", "datagram sent to the wrong endpoint", em=_j(em))
         if em["flags"] & int(PacketFlags.RELIABLE) and em["id"] not in side.seen_unacked and not em["flags"] & int(PacketFlags.RESENT):
@@ -213,17 +218,11 @@ class Run:
                           acks=tuple(appended))
         if appended:
             msg.send_flags |= int(PacketFlags.ACK)
-        wire = _deser.deserialize(bytes(_ser.serialize(msg)))
-        wire.direction = direction
         dropping = m.drop_next
         m.drop_next = False
-        # --- real code, in the order of handle_proxied_packet
+        # --- real code
         try:
-            self.circuit.collect_acks(wire)
-            if dropping:
-                self.circuit.drop_message(wire)
-            else:
-                self.circuit.send(wire)
+            self.process(bytes(_ser.serialize(msg)), direction, dropping)
         except Exception as e:
             self.viol("circuit-raises", "the circuit raised while handling an endpoint's packet", exc=repr(e)[:300])
             return True
@@ -303,6 +302,16 @@ class Run:
         for e in ems:
             self.deliver(e)
         return True
+
+    def process(self, data, direction, dropping):
+        """Circuit-level backend: the call sequence of handle_proxied_packet, written out."""
+        wire = _deser.deserialize(data)
+        wire.direction = direction
+        self.circuit.collect_acks(wire)
+        if dropping:
+            self.circuit.drop_message(wire)
+        else:
+            self.circuit.send(wire)
 
     def _note_injected(self, direction, e):
         m = self.model
@@ -412,6 +421,83 @@ class Run:
                 tuple(sorted((d.name, w, i.tries_left) for (d, w), i in c.unacked_reliable.items())))
 
 
+class DropAddon:
+    """The 'proxy drops the next packet' action, as an addon would do it."""
+    def __init__(self):
+        self.drop_next = False
+
+    def handle_lludp_message(self, session, region, message):
+        if self.drop_next:
+            self.drop_next = False
+            region.circuit.drop_message(message)
+            return True
+
+
+class ProtocolRun(Run):
+    """Same actions and the same model, but every endpoint packet is a real datagram through the real
+    InterceptingLLUDPProxyProtocol (SOCKS framing included) and drops are performed by an addon."""
+    def __init__(self, ctx, tries):
+        from ..harness_proxy import Rig
+        from hippolyzer.lib.proxy.settings import ProxySettings
+        self.ctx = ctx
+        self.addon = DropAddon()
+        settings = ProxySettings()
+        settings.ALLOW_AUTO_REQUEST_OBJECTS = False
+        self.rig = Rig(addons=[self.addon], settings=settings)
+        self.far_addr, self.near_addr = ("10.1.0.1", 13001), ("10.0.0.1", 40001)
+        self.session = self.rig.add_session(self.far_addr)
+        self.assoc = self.rig.add_association(self.near_addr)
+        ucc = Message("UseCircuitCode", Block("CircuitCode", Code=self.session.circuit_code, SessionID=self.session.id,
+                                              ID=self.session.agent_id), packet_id=1, flags=0)
+        exc = self.assoc.from_viewer(self.far_addr, bytes(_ser.serialize(ucc)))
+        if exc is not None:
+            raise exc
+        self.circuit = self.session.regions[0].circuit
+        self.circuit.resend_every = RESEND_EVERY
+        self.model = Model(tries)
+        v = self.model.sides["V"]
+        v.next_id = 2
+        v.sent_ids.add(1)
+        self.model.used[OUT].add(1)
+        self.rig.sendlog.clear()
+        self.path = []
+        self.ok = True
+
+    def close(self):
+        self.rig.close()
+
+    def process(self, data, direction, dropping):
+        self.addon.drop_next = dropping
+        exc = self.assoc.from_viewer(self.far_addr, data) if direction == OUT else self.assoc.from_sim(self.far_addr, data)
+        self.addon.drop_next = False
+        if exc is not None:
+            raise exc
+
+    def take_emissions(self):
+        from ..harness_proxy import socks_unwrap_ref
+        out = list(self.rig.sendlog)
+        self.rig.sendlog.clear()
+        res = []
+        for (_, data, addr) in out:
+            direction = OUT
+            if addr == self.near_addr:
+                un = socks_unwrap_ref(data)
+                if un is None or un[0] != self.far_addr:
+                    self.viol("emitted-bad-socks-framing", "a datagram for the viewer is not framed with the simulator's address",
+                              data=data[:60])
+                    continue
+                data, direction = un[1], IN
+            try:
+                d = decode_emitted(data)
+            except Exception as e:
+                self.viol("emitted-undecodable", "the proxy emitted a datagram that does not decode", exc=repr(e)[:200], data=data[:100])
+                continue
+            d["direction"] = direction
+            d["dst"] = addr
+            res.append(d)
+        return res
+
+
 def _j(x):
     if isinstance(x, list):
         return [_j(i) for i in x]
@@ -420,10 +506,12 @@ def _j(x):
     return x
 
 
-def replay_path(ctx, path, tries):
+def replay_path(ctx, path, tries, backend="circuit"):
     clock = VirtualClock().install()
+    run = None
     try:
-        run = Run(ctx, tries)
+        run = (ProtocolRun if backend == "protocol" else Run)(ctx, tries)
+        run.backend = backend
         run.clock = clock
         for a in path:
             if not run.apply(a):
@@ -433,6 +521,8 @@ def replay_path(ctx, path, tries):
         return run
     finally:
         clock.uninstall()
+        if run is not None:
+            run.close()
 
 
 def dfs(ctx, depth, first_actions, tries):
@@ -462,10 +552,12 @@ def dfs(ctx, depth, first_actions, tries):
     return states
 
 
-def random_walk(ctx, rng, steps, tries, profile="mixed"):
+def random_walk(ctx, rng, steps, tries, profile="mixed", backend="circuit"):
     clock = VirtualClock().install()
+    run = None
     try:
-        run = Run(ctx, tries)
+        run = (ProtocolRun if backend == "protocol" else Run)(ctx, tries)
+        run.backend = backend
         run.clock = clock
         weights = [3 if a[0] in "VS" else 2 for a in ACTIONS]
         if profile == "timers":
@@ -478,10 +570,14 @@ def random_walk(ctx, rng, steps, tries, profile="mixed"):
             if not run.ok:
                 break
         ctx.ev()
-        ctx.nontrivial(("walk", tuple(run.path)))
+        ctx.nontrivial(("walk", backend, tuple(run.path)))
+        if backend == "protocol":
+            ctx.count("protocol_level_events", len(run.path))
         return run.path
     finally:
         clock.uninstall()
+        if run is not None:
+            run.close()
 
 
 def run(ctx):
@@ -511,6 +607,15 @@ def run(ctx):
         path = random_walk(ctx, rng, 200, tries=rng.choice([3, 10]), profile="timers" if k % 2 else "mixed")
         if k == 0:
             ctx.sample({"random_walk_head": path[:40]})
+    # the same actions through the real proxy protocol (datagram_received -> handle_proxied_packet, drops by an addon)
+    for k in range(ctx.pick(6, 60)):
+        if ctx.out_of_time():
+            break
+        random_walk(ctx, rng, 120, tries=rng.choice([3, 10]), profile="timers" if k % 3 == 2 else "mixed", backend="protocol")
+    if ctx.shard == 0:
+        for path in (["IIr", "D", "SrA", "T3", "T3"], ["IOr", "D", "VrA", "T3"], ["IIr", "D", "VPA", "T3"], ["IOr", "IIr", "D", "SuA", "D", "VuA", "T3"]):
+            replay_path(ctx, path, 3, backend="protocol")
+            ctx.ev()
     tmon.drain(ctx)
 
 
@@ -520,4 +625,4 @@ def replay(ctx, w):
             asyncio.get_event_loop_policy().get_event_loop()
         except Exception:
             asyncio.set_event_loop(asyncio.new_event_loop())
-        replay_path(ctx, w["path"], w.get("tries", 3))
+        replay_path(ctx, w["path"], w.get("tries", 3), backend=w.get("backend", "circuit"))
